@@ -177,6 +177,50 @@ func resolveMarker(marker string, extras []string, fromTop bool) (o obs) {
 	return edgeObs(g, "root", "dep")
 }
 
+// resolveMarkerLate builds the universe
+//
+//	top 1.0 -> root, via     via 1.0 -> root [extras]     root 1.0 -> dep ; marker     dep 1.0
+//
+// in which root is first pinned without extras and the extras arrive with a
+// later requirement. pip then follows root's dependencies again with the
+// extras enabled, so the observable and the oracle are those of resolveMarker.
+func resolveMarkerLate(marker string, extras []string) (o obs) {
+	defer func() {
+		if p := recover(); p != nil {
+			o = obs{Panic: fmt.Sprint(p)}
+		}
+	}()
+	lc := resolve.NewLocalClient()
+	var te dep.Type
+	te.AddAttr(dep.EnabledDependencies, strings.Join(extras, ","))
+	var tm dep.Type
+	tm.AddAttr(dep.Environment, marker)
+	lc.AddVersion(resolve.Version{VersionKey: vk("dep", "1.0", resolve.Concrete)}, nil)
+	lc.AddVersion(resolve.Version{VersionKey: vk("root", "1.0", resolve.Concrete)},
+		[]resolve.RequirementVersion{{VersionKey: vk("dep", "", resolve.Requirement), Type: tm}})
+	lc.AddVersion(resolve.Version{VersionKey: vk("via", "1.0", resolve.Concrete)},
+		[]resolve.RequirementVersion{{VersionKey: vk("root", "", resolve.Requirement), Type: te}})
+	lc.AddVersion(resolve.Version{VersionKey: vk("top", "1.0", resolve.Concrete)},
+		[]resolve.RequirementVersion{
+			{VersionKey: vk("root", "==1.0", resolve.Requirement)},
+			{VersionKey: vk("via", "", resolve.Requirement)},
+		})
+	ctx, cancel := context.WithCancel(context.Background())
+	defer cancel()
+	cc := &countClient{c: lc, max: stepBudget, cancel: cancel}
+	g, err := pypi.NewResolver(cc).Resolve(ctx, vk("top", "1.0", resolve.Concrete))
+	if cc.n.Load() > cc.max {
+		return obs{Budget: true}
+	}
+	if err != nil {
+		return obs{Err: err.Error()}
+	}
+	if g.Error != "" {
+		return obs{Err: "graph: " + g.Error}
+	}
+	return edgeObs(g, "root", "dep")
+}
+
 // edgeObs looks for the edge root->dep among the nodes of the given names.
 func edgeObs(g *resolve.Graph, root, dep string) obs {
 	rootID, depID := -1, -1
